@@ -322,6 +322,106 @@ func genCore(r *rand.Rand, maxOps int) (*coreCase, []string) {
 	return c, dedup(b)
 }
 
+// genBackClock: non-monotone clocks. Arrivals whose clock steps back (negative
+// arrival difference in the jitter update: ns .. seconds, rarely hours), and
+// reports taken before the arrival instant of the latest sender report
+// (negative delay since last SR).
+func genBackClock(r *rand.Rand) (*coreCase, []string) {
+	c := &coreCase{Rate: pickRate(r)}
+	b := []string{"nonmonotone-clock"}
+	v := int64(r.Intn(65536))
+	ts := r.Uint32()
+	if r.Intn(4) == 0 {
+		ts = 0xFFFFFFFF - uint32(r.Intn(int(c.Rate/8+10)))
+		b = append(b, "ts-near-wrap")
+	}
+	tsStep := c.Rate / 50
+	now := recent + r.Int63n(100000000)*ms
+	lastSR := int64(-1)
+	n := 4 + r.Intn(30)
+	for i := 0; i < n; i++ {
+		c.Ops = append(c.Ops, coreOp{K: "rtp", Now: now, Seq: uint16(v), TS: ts}) //nolint:gosec
+		step := int64(1)
+		if r.Intn(6) == 0 {
+			step = int64(2 + r.Intn(4))
+		}
+		v += step
+		ts += uint32(step) * tsStep //nolint:gosec
+		switch r.Intn(8) {
+		case 0:
+			now -= 1 + int64(r.Intn(3)) // a few ns back
+			b = append(b, "arrival-ns-back")
+		case 1:
+			now -= int64(r.Intn(200)) * ms
+			b = append(b, "arrival-ms-back")
+		case 2:
+			now -= int64(r.Intn(20000)) * ms
+			b = append(b, "arrival-seconds-back")
+		case 3:
+			if r.Intn(6) == 0 {
+				now -= int64(1+r.Intn(30)) * 3600 * sec
+				b = append(b, "arrival-hours-back")
+			}
+		default:
+			now += int64(r.Intn(40)) * ms
+		}
+		if r.Intn(5) == 0 {
+			c.Ops = append(c.Ops, coreOp{K: "sr", Now: now, NTP: srNTP(r)})
+			lastSR = now
+		}
+		if r.Intn(4) == 0 {
+			rn := now
+			if lastSR >= 0 && r.Intn(2) == 0 {
+				switch r.Intn(6) {
+				case 0:
+					rn = lastSR - 1 - int64(r.Intn(3))
+				case 1:
+					rn = lastSR - 15257 - int64(r.Intn(4)) // first unit of 1/65536 s
+				case 2:
+					rn = lastSR - int64(r.Intn(5000))*ms
+				case 3:
+					rn = lastSR - int64(1+r.Intn(40))*3600*sec // beyond 18.2 h the negative delay wraps 2^32
+					b = append(b, "report-hours-before-sr")
+				default:
+					rn = lastSR - r.Int63n(100*sec)
+				}
+				b = append(b, "report-before-sr")
+			}
+			c.Ops = append(c.Ops, coreOp{K: "rep", Now: rn})
+		}
+	}
+	c.Ops = append(c.Ops, coreOp{K: "rep", Now: now})
+
+	return c, dedup(b)
+}
+
+// genSaturationReal (thorough tier only): the 24-bit saturation of the
+// cumulative loss counter reached by REAL losses, no hook. generateReport counts
+// at most one loss per loop iteration, so 2^24 losses need 2^24 iterations of the
+// counting loop, in Go and in the model alike; the widest interval the 16-bit
+// arithmetic allows (a jump of 32767, every number in between lost) needs 513
+// packets with a report after each. Such intervals are outside the 8192 scope
+// (the bitmap aliases), so the loss fields are compared with the model
+// bit-for-bit, not with the recount oracle; within the scope the saturation
+// stays covered by the preset hook + theorem C06_reports_are_the_recount_preset.
+func genSaturationReal(r *rand.Rand) (*coreCase, []string) {
+	c := &coreCase{Rate: 90000}
+	v := uint16(r.Intn(65536))
+	ts := r.Uint32()
+	now := recent + r.Int63n(1000000)*ms
+	c.Ops = append(c.Ops, coreOp{K: "rtp", Now: now, Seq: v, TS: ts})
+	c.Ops = append(c.Ops, coreOp{K: "rep", Now: now})
+	for i := 0; i < 516; i++ {
+		v += 32767
+		ts += 3000
+		now += 33 * ms
+		c.Ops = append(c.Ops, coreOp{K: "rtp", Now: now, Seq: v, TS: ts})
+		c.Ops = append(c.Ops, coreOp{K: "rep", Now: now})
+	}
+
+	return c, []string{"saturation-real-losses"}
+}
+
 func dedup(b []string) []string {
 	m := map[string]bool{}
 	out := b[:0]
@@ -611,6 +711,22 @@ func genAPI(r *rand.Rand) (*apiCase, []string) {
 			now += int64(r.Intn(30)) * ms
 		}
 	}
+	if r.Intn(3) == 0 {
+		// freshness: SR, tick, Unbind, an SR for the SSRC while it is not bound, tick, Bind again;
+		// the final tick must report a fresh stream (LSR 0, delay 0, nothing received)
+		k := r.Intn(ns)
+		if sts[k].bound {
+			c.Ops = append(c.Ops,
+				apiOp{K: "sr", SSRC: ssrcs[k], Now: now, NTP: srNTP(r)},
+				apiOp{K: "tick", Now: now + ms},
+				apiOp{K: "unbind", SSRC: ssrcs[k]},
+				apiOp{K: "sr", SSRC: ssrcs[k], Now: now + 2*ms, NTP: srNTP(r)},
+				apiOp{K: "tick", Now: now + 3*ms},
+				apiOp{K: "bind", SSRC: ssrcs[k], Rate: pickRate(r)})
+			now += 5 * ms
+			b = append(b, "sr-unbind-sr-rebind")
+		}
+	}
 	c.Ops = append(c.Ops, apiOp{K: "tick", Now: now})
 	b = append(b, fmt.Sprintf("streams-%d", ns))
 
@@ -673,9 +789,18 @@ func main() {
 	ncore := o.Scale(1400, 10000)
 	for i := 0; i < ncore; i++ {
 		c, b := genCore(r, 60)
+		if i%10 == 7 {
+			c, b = genBackClock(r)
+		}
 		if i%20 == 19 { // cumulative loss counter just below 2^24-1
 			c.Total0 = 0xFFFFFF - uint32(r.Intn(40))
 		}
+		runCore(c)
+		core.Cases = append(core.Cases, c.toCase(b...))
+	}
+	if o.Tier == "thorough" {
+		// one real run up to the 24-bit saturation of the cumulative loss counter (no hook)
+		c, b := genSaturationReal(r)
 		runCore(c)
 		core.Cases = append(core.Cases, c.toCase(b...))
 	}
